@@ -29,7 +29,8 @@ RULE = ('Client / AsyncClient on the real engine.io client object, connected '
         'repeated after the callback fired, or both directions in one '
         'history.'
         ' Also generated: the answer to something else that is still outstanding (an earlier call() that timed out, an emit with a callback) arrives while a call() waits.'
-        ' Frames whose payload is not a list (a string, an object, nothing, an empty list) invoke nothing, are not acknowledged and leave an outstanding callback outstanding.')
+        ' Frames whose payload is not a list (a string, an object, nothing, an empty list) invoke nothing, are not acknowledged and leave an outstanding callback outstanding.'
+        ' Op relive: the server ends every namespace (ending the connection) while callbacks are outstanding, the same client object connects again, and ACKs bearing the earlier ids arrive: nothing is invoked.')
 ASSUMPTIONS = [
     'the scripted server only sends on namespaces it has accepted',
     'call() time-outs: pumping wait primitive (threaded) / virtual time '
@@ -93,6 +94,11 @@ def strategy(tier):
         # the server ends one namespace; the others, with their outstanding
         # callbacks, are not affected
         st.fixed_dictionaries({'op': st.just('sdisc_ns'), 'ns': nsi}),
+        # the server ends every namespace (which ends the connection), the
+        # same client object connects again, and acknowledgements bearing
+        # the ids of the earlier connection's outstanding callbacks arrive:
+        # they are unknown to the new connection and are ignored
+        st.fixed_dictionaries({'op': st.just('relive')}),
         # the handler of an event uses call() itself and answers with what
         # the server acknowledged: the acknowledgement is dispatched (by
         # another engine.io thread / task) while the handler is still running
@@ -312,6 +318,7 @@ def _run(case, h):
                             % (step, what, cb_log[-3:], expect_cb[-3:]))
 
     leaked = {n: set() for n in NSS}   # ids of emits that were never sent
+    relived = [False]
     regs = set()
     seen_ev = set()
     last_id = {}
@@ -352,6 +359,51 @@ def _run(case, h):
             if any(outstanding[n] for n in nss):
                 labels['nontrivial'] = True
             check_quiet(step, 'sdisc_ns')
+            continue
+        if k == 'relive':
+            old = [(n, i) for n in nss for i in sorted(outstanding[n])]
+            if not old or relived[0]:
+                continue
+            relived[0] = True
+            for n in list(nss):
+                for f in wire.frames(wire.DISCONNECT, n):
+                    h.deliver(f)
+            if aio:
+                h.loop.run_until_idle()
+            h.take_msgs()
+            if sio.connected or sio.namespaces:
+                raise Violation('connected-after-server-disconnect',
+                                repr(sio.namespaces))
+            for n in NSS:
+                outstanding[n].clear()
+                used[n][:] = []
+                leaked[n].clear()
+            last_id.clear()     # the new connection numbers from the start
+            check_quiet(step, 'relive: server ended every namespace')
+            if aio:
+                task = h.loop.spawn(sio.connect('http://h', namespaces=nss))
+                h.loop.run_until_idle()
+                answer()
+                h.loop.run_until_idle()
+                if not task.done() or task.exception():
+                    raise Violation('connect-failed', 'second life: %r'
+                                    % (task,))
+            else:
+                h.on_wait = answer
+                sio.connect('http://h', namespaces=nss)
+                h.on_wait = None
+            reader.read(h.take_msgs())
+            for n, i in old:
+                for f in wire.frames(wire.ACK, n, i, ['late']):
+                    h.deliver(f)
+                if aio:
+                    h.loop.run_until_idle()
+            labels['ack_of_earlier_life'] = True
+            labels['nontrivial'] = True
+            check_quiet(step, 'relive: ACK with an id of the earlier '
+                        'connection')
+            if h.take_msgs():
+                raise Violation('ack-caused-traffic', 'relive')
             continue
         if k == 'ev_calls':
             tgt = responsible(ns, 'a', regs)
